@@ -150,6 +150,9 @@ func (s *statsChild) deliver(cs Case) {
 			applyCfg(m.Pl)
 		case "@tick":
 			s.tick(time.Duration(tickAhead(m)) * time.Second)
+		case "@age":
+			s.c.VerifAgePenalties(int64(tickAhead(m)))
+			s.tick(0)
 		default:
 			b, _ := hex.DecodeString(m.Pl)
 			s.msg(m.Cmd, b, tr)
